@@ -1596,6 +1596,10 @@ class Engine:
             if name.startswith("numpy"):
                 tol = RealVal(repr(float(ab))) + RealVal(repr(float(rel))) * absv(b.val)
             return If(And(a.is_fin(), b.is_fin()), absv(a.val - b.val) <= tol, Or(And(a.pinf, b.pinf), And(a.ninf, b.ninf)))
+        if name == "numpy.float64" and len(args) == 1 and not kwargs and (isinstance(args[0], (Ext, int, float)) or (is_z3(args[0]) and z3.is_arith(args[0]))):
+            # dependency contract (numpy): float64(t) of a double t (incl. +-inf) is the same number.  That the result is a "strong" scalar, i.e. is not
+            # rounded to the dtype of an array it is compared with (NEP 50), is machine arithmetic outside the real-number model.
+            return args[0]
         if name in ("sklearn.utils.Bunch",):
             d = PyDict(kwargs)
             d.bunch = True
